@@ -258,7 +258,9 @@ func (e *vxSQLEnv) handle(ev vx.SQLEvent) vx.SQLResult {
 			ok = true
 		}
 	}
-	if !ok {
+	// statements outside the list are a violation only if they can change what the
+	// application reads; a new read-only statement (SELECT, a PRAGMA query) is not
+	if !ok && vxSQLCanWrite(ev.SQL) {
 		e.badSQL = append(e.badSQL, ev.SQL)
 	}
 	if e.faults && vx.Fault("sqlfault:stmt") {
@@ -283,6 +285,21 @@ func (e *vxSQLEnv) handle(ev vx.SQLEvent) vx.SQLResult {
 		return vx.SQLResult{Ints: []int64{0, e.ckptFrames, e.ckptFrames}}
 	}
 	return vx.SQLResult{}
+}
+
+// vxSQLCanWrite: data or schema statements, PRAGMAs that set something, and
+// anything the classifier does not recognise.
+func vxSQLCanWrite(q string) bool {
+	u := strings.ToUpper(strings.TrimSpace(q))
+	for _, p := range []string{"SELECT ", "EXPLAIN ", "VALUES "} {
+		if strings.HasPrefix(u, p) {
+			return false
+		}
+	}
+	if strings.HasPrefix(u, "PRAGMA ") {
+		return strings.ContainsAny(u, "=(")
+	}
+	return true
 }
 
 func vxNewSQLEnv(faults bool) *vxSQLEnv {
